@@ -794,6 +794,76 @@ def r10_last_answer_keyed_by_all_arguments(repo=None):
     return r
 
 
+def r12_last_sample_from_the_last_index_row(repo=None):
+    """'get_bounds is coherent with read': the last sample of the newest file is (start of the *last* block) + (samples stored behind
+    that block's first row), which is what read() returns for the end of the file.  Every return of `_get_last_sample` must take
+    the block from the last row of rf_data_index (`[-1]`): a return that reads a fixed other row (the first one, "continuous data
+    has one row") is wrong for every file with more rows than it assumes - continuous data written with compression or checksums
+    gets one row per write call - and get_bounds then ends before samples that read() returns."""
+    r = Rule("C08.R12", "the last sample of a file is computed from the last row of its block index on every path")
+    m = pyfront.mod("digital_rf_hdf5", repo)
+    # by role: the method of the per-directory reader that takes a file name, reads both the length of rf_data (`.shape`) and
+    # rf_data_index of that file and returns a number (whatever it is called)
+    cands = []
+    for q_, f_ in m.functions.items():
+        if not q_.startswith(TL + ".") or "<locals>" in q_ or q_ == TL + "._read":
+            continue
+        consts = {y.value for y in ast.walk(f_) if isinstance(y, ast.Constant) and isinstance(y.value, str)}
+        if {"rf_data", "rf_data_index"} <= consts and any(isinstance(y, ast.Attribute) and y.attr == "shape" for y in ast.walk(f_)) \
+                and any(isinstance(y, ast.Call) and pyfront.call_name(y) == "h5py.File" for y in ast.walk(f_)) \
+                and not any(isinstance(y, ast.Attribute) and isinstance(y.ctx, ast.Store) and pyfront.dotted(y.value) == "self" for y in ast.walk(f_)) \
+                and any(isinstance(y, ast.Return) and y.value is not None and not isinstance(y.value, ast.Constant) for y in ast.walk(f_)):
+            cands.append(q_)        # (the helpers that (re)load the open-file cache store attributes and return nothing)
+    if len(cands) != 1:
+        raise AnalysisError("%s: the method computing the last sample of a file (reads rf_data.shape and rf_data_index) was not found exactly once (%s)" % (TL, cands))
+    q = cands[0]
+    f = m.flat(q).fn()
+    idx_vars = {n.targets[0].id for n in ast.walk(f) if isinstance(n, ast.Assign) and len(n.targets) == 1 and isinstance(n.targets[0], ast.Name)
+                and any(isinstance(y, ast.Constant) and y.value == "rf_data_index" for y in ast.walk(n.value))}
+    if not idx_vars:
+        raise AnalysisError("%s: the local holding <file>[\"rf_data_index\"] was not found" % q)
+    defs = {}
+    for n in ast.walk(f):
+        if isinstance(n, ast.Assign) and len(n.targets) == 1 and isinstance(n.targets[0], ast.Name):
+            defs.setdefault(n.targets[0].id, []).append(n.value)
+
+    def rows(e, depth=0, seen=()):
+        """constant row numbers of the index read (transitively through locals) by expression e"""
+        out = set()
+        for x in ast.walk(e):
+            if isinstance(x, ast.Subscript) and isinstance(x.value, ast.Name) and x.value.id in idx_vars:
+                sl = x.slice.elts[0] if isinstance(x.slice, ast.Tuple) and x.slice.elts else x.slice
+                v = pyfront.const(sl)
+                if isinstance(sl, ast.UnaryOp) and isinstance(sl.op, ast.USub) and isinstance(pyfront.const(sl.operand), int):
+                    v = -pyfront.const(sl.operand)
+                out.add(v if isinstance(v, int) else "?")
+            elif isinstance(x, ast.Name) and x.id in defs and x.id not in seen and x.id not in idx_vars and depth < 4:
+                for d in defs[x.id]:
+                    out |= rows(d, depth + 1, seen + (x.id,))
+        return out
+    rets = [x for x in ast.walk(f) if isinstance(x, ast.Return) and x.value is not None and not (isinstance(x.value, ast.Constant) and x.value.value is None)]
+    n = 0
+    for rt in rets:
+        rs = rows(rt.value)
+        if not rs:
+            continue
+        n += 1
+        site = "%s:%s %s `%s`" % (m.rel, rt.lineno, q, norm(ast.unparse(rt))[:60])
+        other = sorted(x for x in rs if x != -1 and x != "?")
+        if other:
+            r.violation(m.rel, q, norm(ast.unparse(rt))[:80], "this return computes the last sample from row %s of the block index instead of the last "
+                        "row: for a file with more index rows (gapped data; continuous data written with compression or checksum has "
+                        "one row per write call) get_bounds reports an end before samples that read() returns" % other[0], line=rt.lineno)
+        elif rs == {-1}:
+            r.ok(site, "uses the last row of the block index")
+        else:
+            raise AnalysisError("%s: which index row `%s` reads was not recognised" % (q, norm(ast.unparse(rt))[:60]))
+    if n < 1:
+        raise AnalysisError("%s: no return computed from the block index found" % q)
+    r.guard(1)
+    return r
+
+
 COPIERS = ("np.array", "numpy.array", "np.copy", "numpy.copy", "np.ascontiguousarray", "np.concatenate", "numpy.concatenate")
 
 
@@ -859,12 +929,13 @@ def r11_cache_hands_out_no_views(repo=None, rid="C08.R11"):
 
 
 def rules(repo=None):
-    return [lambda: r11_cache_hands_out_no_views(repo), lambda: r10_last_answer_keyed_by_all_arguments(repo), lambda: r9_directory_names_are_not_patterns(repo), lambda: r8_no_history_state(repo), lambda: r1_one_pipeline(repo), lambda: r2_vector_guards(repo), lambda: r3_guard_on_sample_axis(repo),
+    return [lambda: r12_last_sample_from_the_last_index_row(repo), lambda: r11_cache_hands_out_no_views(repo), lambda: r10_last_answer_keyed_by_all_arguments(repo), lambda: r9_directory_names_are_not_patterns(repo), lambda: r8_no_history_state(repo), lambda: r1_one_pipeline(repo), lambda: r2_vector_guards(repo), lambda: r3_guard_on_sample_axis(repo),
             lambda: c01.r3_exact_lookup(repo, rid="C08.R4"), lambda: r5_subchannel_column(repo),
             lambda: r6_lossless_conversion(repo), lambda: c01.r6_exact_index_use(repo, rid="C08.R7")]
 
 
 EXPLANATION = (
+    'R12: every return of _get_last_sample that reads the block index reads its last row ([-1]). '
     'R11: the attribute of the per-directory reader from which _read slices the samples is bound to the data set object '
     '(<file>["rf_data"]), so every slice is a fresh array; if it is bound to materialised samples every slice handed on must be copied. '
     'R1: read() and get_continuous_blocks() call _get_file_list, _read and _combine_blocks with identical arguments '
